@@ -242,6 +242,37 @@ func check(c Case) (pbt.Info, error) {
 	if !slices.Equal(gotR, wantR) && len(gotR)+len(wantR) > 0 {
 		return info, fmt.Errorf("%s: GetSortedValuesFunc(descending) = %v, want %v", kind, gotR, wantR)
 	}
+	// comparators whose results are not -1/0/+1 (a result of +3 is as much "greater" as
+	// +1), ascending and descending, and a many-to-one order (validity: a permutation of
+	// the contents, non-decreasing under the comparator)
+	mag := func(a, b int) int {
+		switch {
+		case a < b:
+			return -2 - int(uint(b-a)%5)
+		case a > b:
+			return 2 + int(uint(a-b)%5)
+		}
+		return 0
+	}
+	if gotM := containers.GetSortedValuesFunc[int](h.Container, mag); !slices.Equal(gotM, want) && len(gotM)+len(want) > 0 {
+		return info, fmt.Errorf("%s: GetSortedValuesFunc(ascending, comparator results of magnitude 2..6) = %v, want %v", kind, gotM, want)
+	}
+	if gotM := containers.GetSortedValuesFunc[int](h.Container, func(a, b int) int { return mag(b, a) }); !slices.Equal(gotM, wantR) && len(gotM)+len(wantR) > 0 {
+		return info, fmt.Errorf("%s: GetSortedValuesFunc(descending, comparator results of magnitude 2..6) = %v, want %v", kind, gotM, wantR)
+	}
+	coarse := func(a, b int) int { return mag(a>>2, b>>2) }
+	gotC := containers.GetSortedValuesFunc[int](h.Container, coarse)
+	if sortedC := slices.Clone(gotC); len(gotC) > 0 || len(want) > 0 {
+		slices.Sort(sortedC)
+		if !slices.Equal(sortedC, want) {
+			return info, fmt.Errorf("%s: GetSortedValuesFunc(many-to-one order) = %v is not a permutation of the contents %v", kind, gotC, want)
+		}
+		for i := 1; i < len(gotC); i++ {
+			if coarse(gotC[i-1], gotC[i]) > 0 {
+				return info, fmt.Errorf("%s: GetSortedValuesFunc(many-to-one order) = %v is not sorted under the comparator at %d", kind, gotC, i)
+			}
+		}
+	}
 	if err := same(h, "after GetSortedValues / GetSortedValuesFunc"); err != nil {
 		return info, err
 	}
